@@ -22,6 +22,16 @@ type tsaVariant struct {
 }
 
 func tsaVariants() []tsaVariant {
+	mkn := func(n int, name string, f func(p *chainPlan), trusted bool) tsaVariant {
+		p := basePlan(n, "ts", "ec256b")
+		for i := range p.certs {
+			p.certs[i].spec.CN = fmt.Sprintf("tsa%d-", n) + p.certs[i].spec.CN
+		}
+		if f != nil {
+			f(p)
+		}
+		return tsaVariant{name, p.build().certs, trusted}
+	}
 	mk := func(name string, f func(p *chainPlan), trusted bool) tsaVariant {
 		p := basePlan(3, "ts", "ec256b")
 		for i := range p.certs {
@@ -47,6 +57,13 @@ func tsaVariants() []tsaVariant {
 		}, true),
 		mk("ca-pathlen-too-small", func(p *chainPlan) { p.certs[2].spec.MaxPathLen = 0 }, true),
 		mk("leaf-empty-subject", func(p *chainPlan) { p.certs[0].spec.EmptySubject = true }, true),
+		// a lone self-signed TSA certificate that is itself the caller's trusted root, and chains of two
+		mkn(1, "single-ok", nil, true),
+		mkn(1, "single-ku-keyencipherment", func(p *chainPlan) { p.certs[0].spec.KU |= x509.KeyUsageKeyEncipherment }, true),
+		mkn(1, "single-is-ca", func(p *chainPlan) { p.certs[0].spec.IsCA = true; p.certs[0].spec.BC = true }, true),
+		mkn(1, "single-eku-extra-codesigning", func(p *chainPlan) { p.certs[0].spec.EKU = []string{"ts", "code"} }, true),
+		mkn(2, "two-ok", nil, true),
+		mkn(2, "two-leaf-eku-noncritical", func(p *chainPlan) { p.certs[0].spec.EKUExt = ExtNonCritical }, true),
 	}
 }
 
